@@ -6,8 +6,35 @@ functions, and "step = next boundary" for every meaning.
 namespace Rotation
 open Py Py.Calendar Rotation.Gen
 
+/-- the generated comparisons mean what `RotationTime.__call__` needs them to mean (these three
+lemmas are where a changed comparison operator in /repo breaks the proofs) -/
+theorem shouldRotate_iff (r l : Int) : shouldRotate r l = true ↔ l ≤ r := by
+  unfold shouldRotate
+  first | (simp; done) | (simp; omega) | (constructor <;> intro h <;> simp at * <;> omega)
+
+theorem catchUpCond_iff (l r : Int) : catchUpCond l r = true ↔ l ≤ r := by
+  unfold catchUpCond
+  first | (simp; done) | (simp; omega) | (constructor <;> intro h <;> simp at * <;> omega)
+
+theorem firstLimitStep_iff (limit start lw : Int) (w : Option Int) :
+    firstLimitStep limit start lw w = true ↔ (limit ≤ start ∨ ∃ d, w = some d ∧ lw ≠ d) := by
+  unfold firstLimitStep
+  cases w with
+  | none => first | (simp; done) | (simp; omega)
+  | some d => first | (simp; done) | (simp; omega)
+
 theorem catchUp_stop (f : Int → Int) (n : Nat) (l r : Int) (h : ¬ l ≤ r) : catchUp f n l r = l := by
-  cases n <;> simp [catchUp, catchUpCond, h]
+  have hc : catchUpCond l r = false := by
+    cases hb : catchUpCond l r with
+    | false => rfl
+    | true => exact absurd ((catchUpCond_iff l r).mp hb) h
+  cases n <;> simp [catchUp, hc]
+
+theorem catchUp_step (f : Int → Int) (n : Nat) (l r : Int) (h : l ≤ r) (hadv : l < f l) :
+    catchUp f (n + 1) l r = catchUp f n (f l) r := by
+  have hc : catchUpCond l r = true := (catchUpCond_iff l r).mpr h
+  have : ¬ f l ≤ l := by omega
+  simp [catchUp, hc, this]
 
 /-- with a step that maps every boundary to the next one, the loop ends on the next boundary after `r` -/
 theorem catchUp_next (B : Int → Prop) (f : Int → Int) (hf : ∀ l, B l → IsNext B l (f l)) :
@@ -19,8 +46,7 @@ theorem catchUp_next (B : Int → Prop) (f : Int → Int) (hf : ∀ l, B l → I
   | succ n ih =>
     intro l τ r hn hle hfuel
     have hstep := hf l hn.1
-    unfold catchUp
-    simp only [catchUpCond, hle, decide_true, if_true]
+    rw [catchUp_step f n l r hle hstep.2.1]
     by_cases h2 : f l ≤ r
     · exact ih (f l) l r hstep h2 (by have := hstep.2.1; omega)
     · rw [catchUp_stop f n (f l) r h2]
@@ -141,14 +167,22 @@ theorem frame_dailyAt (ti : TimeInit) (off : Int) :
 
 theorem daily_first (start tod : Int) (ht : 0 ≤ tod ∧ tod < 86400000000) :
     IsNext (fun b => b % 86400000000 = tod) start
-      (if decide (start / 86400000000 * 86400000000 + tod ≤ start) = true
+      (if firstLimitStep (start / 86400000000 * 86400000000 + tod) start
+            (weekdayOf (start / 86400000000 * 86400000000 + tod)) none = true
        then start / 86400000000 * 86400000000 + tod + 86400000000
        else start / 86400000000 * 86400000000 + tod) := by
-  simp only [IsNext, decide_eq_true_eq]
+  simp only [IsNext, firstLimitStep_iff]
   split
-  · refine ⟨by omega, by omega, ?_⟩
+  · rename_i h
+    have h' : start / 86400000000 * 86400000000 + tod ≤ start := by
+      rcases h with h | ⟨d, hd, _⟩
+      · exact h
+      · simp at hd
+    refine ⟨by omega, by omega, ?_⟩
     intro b hb hlb; omega
-  · refine ⟨by omega, by omega, ?_⟩
+  · rename_i h
+    have h' : ¬ start / 86400000000 * 86400000000 + tod ≤ start := fun hh => h (Or.inl hh)
+    refine ⟨by omega, by omega, ?_⟩
     intro b hb hlb; omega
 
 /-- the lazily computed first limit is the first boundary after the creation instant -/
@@ -163,25 +197,33 @@ theorem first_limit_plain (F : Form) (hv : F.Valid) (hp : F.Plain) (c off : Int)
     rw [frame_dailyAt]
     cases htz : ti.tz with
     | none =>
-      simp only [Form.cfg, firstLimit, htz, replace_tod, Step.apply, forwardDay, tdUs_forwardDay, firstLimitStep,
-        Bool.or_false]
+      simp only [Form.cfg, firstLimit, htz, replace_tod, Step.apply, forwardDay, tdUs_forwardDay]
       exact daily_first (c + off) ti.tod ht
     | some z =>
-      simp only [Form.cfg, firstLimit, htz, replace_tod, Step.apply, forwardDay, tdUs_forwardDay, firstLimitStep,
-        Bool.or_false]
+      simp only [Form.cfg, firstLimit, htz, replace_tod, Step.apply, forwardDay, tdUs_forwardDay]
       exact daily_first (c + z) ti.tod ht
   | weekdayAt w ti =>
     obtain ⟨h0, h6, hr, htz⟩ := hv
     have ht := tod_range ti hr
-    simp only [Form.cfg, firstLimit, htz, replace_tod, Step.apply, forwardWeekday_spec _ w h0 h6, firstLimitStep,
-      Form.frame, IsNext, Form.B, weekdayOf]
+    simp only [Form.cfg, firstLimit, htz, replace_tod, Step.apply, forwardWeekday_spec _ w h0 h6,
+      Form.frame, IsNext, Form.B, firstLimitStep_iff]
     split
     · rename_i h
-      simp only [Bool.or_eq_true, decide_eq_true_eq, bne_iff_ne, ne_eq] at h
+      have h' : (c + off) / 86400000000 * 86400000000 + ti.tod ≤ c + off ∨
+          weekdayOf ((c + off) / 86400000000 * 86400000000 + ti.tod) ≠ w := by
+        rcases h with h | ⟨d, hd, hne⟩
+        · exact Or.inl h
+        · simp at hd; subst hd; exact Or.inr hne
+      simp only [weekdayOf] at h' ⊢
       refine ⟨by omega, by omega, ?_⟩
       intro b hb hlb; omega
     · rename_i h
-      simp only [Bool.or_eq_true, decide_eq_true_eq, bne_iff_ne, ne_eq, not_or, Decidable.not_not] at h
+      have h1 : ¬ (c + off) / 86400000000 * 86400000000 + ti.tod ≤ c + off := fun hh => h (Or.inl hh)
+      have h2 : weekdayOf ((c + off) / 86400000000 * 86400000000 + ti.tod) = w := by
+        by_cases hw : weekdayOf ((c + off) / 86400000000 * 86400000000 + ti.tod) = w
+        · exact hw
+        · exact absurd (Or.inr ⟨w, rfl, hw⟩) h
+      simp only [weekdayOf] at h2 ⊢
       refine ⟨by omega, by omega, ?_⟩
       intro b hb hlb; omega
   | hourly => simpa [Form.cfg, firstLimit, Step.apply, Form.frame, Form.B] using (freq_next_any (c + off) (c + off)).1
@@ -259,7 +301,7 @@ theorem timeCall_step (F : Form) (ok : StepOK F) (c off τ : Int) (st : Option I
   obtain ⟨limit, hn, hr⟩ := hlim
   rw [hr]
   by_cases hge : limit ≤ key
-  · have hs : shouldRotate key limit = true := by simp [shouldRotate, hge]
+  · have hs : shouldRotate key limit = true := (shouldRotate_iff key limit).mpr hge
     simp only [hs, if_true]
     have hnext := catchUp_next (F.B (c + F.frame off)) F.cfg.step.apply (ok.step _) (catchUpFuel limit key)
       limit τ key hn hge (Nat.le_refl _)
@@ -268,7 +310,10 @@ theorem timeCall_step (F : Form) (ok : StepOK F) (c off τ : Int) (st : Option I
     constructor
     · intro _; exact ⟨limit, hn.1, hn.2.1, hge⟩
     · intro _; trivial
-  · have hs : shouldRotate key limit = false := by simp [shouldRotate, hge]
+  · have hs : shouldRotate key limit = false := by
+      cases hb : shouldRotate key limit with
+      | false => rfl
+      | true => exact absurd ((shouldRotate_iff key limit).mp hb) hge
     simp only [hs]
     refine ⟨⟨limit, rfl, ?_⟩, ?_⟩
     · refine ⟨hn.1, by have := hn.2.1; omega, ?_⟩
@@ -279,5 +324,110 @@ theorem timeCall_step (F : Form) (ok : StepOK F) (c off τ : Int) (st : Option I
       · intro ⟨b, hb, h1, h2⟩
         have := hn.2.2 b hb h1
         omega
+
+/-! ### monthly / yearly: the calendar part -/
+
+/-- month starts are strictly increasing (proved: pure arithmetic of `daysOfCivil`) -/
+theorem monthStart_lt_succ (i : Int) : monthStart i < monthStart (i + 1) := by
+  unfold monthStart daysOfCivil
+  simp only
+  have h1 : (i + 1) / 12 = if i % 12 = 11 then i / 12 + 1 else i / 12 := by split <;> omega
+  have h2 : (i + 1) % 12 = if i % 12 = 11 then 0 else i % 12 + 1 := by split <;> omega
+  rw [h1, h2]
+  have hm : 0 ≤ i % 12 ∧ i % 12 < 12 := by omega
+  generalize i % 12 = r at *
+  generalize i / 12 = q at *
+  obtain ⟨h0, h11⟩ := hm
+  have : r = 0 ∨ r = 1 ∨ r = 2 ∨ r = 3 ∨ r = 4 ∨ r = 5 ∨ r = 6 ∨ r = 7 ∨ r = 8 ∨ r = 9 ∨ r = 10 ∨ r = 11 := by omega
+  rcases this with h | h | h | h | h | h | h | h | h | h | h | h <;> subst h <;> simp <;> omega
+
+theorem monthStart_mono_nat (i : Int) (n : Nat) : monthStart i ≤ monthStart (i + n) := by
+  induction n with
+  | zero => simp
+  | succ k ih =>
+    have := monthStart_lt_succ (i + k)
+    have e : i + ((k + 1 : Nat) : Int) = i + (k : Int) + 1 := by omega
+    rw [e]; omega
+
+theorem monthStart_mono (i j : Int) (h : i ≤ j) : monthStart i ≤ monthStart j := by
+  have := monthStart_mono_nat i (j - i).toNat
+  have e : i + ((j - i).toNat : Int) = j := by omega
+  rwa [e] at this
+
+theorem monthStart_lt_imp (i j : Int) (h : monthStart i < monthStart j) : i < j := by
+  by_cases hji : j ≤ i
+  · have := monthStart_mono j i hji; omega
+  · omega
+
+/-- THE calendar fact the monthly/yearly theorems rest on (not proved; validated against
+`datetime.date` for every day of years 1..9999 by the correspondence run): the civil date that
+`civilOfDays` assigns to day `z` has a month in 1..12, and `z` lies in that month as `daysOfCivil`
+delimits it. -/
+def CalendarMonthFact : Prop :=
+  ∀ z : Int,
+    let c := civilOfDays z
+    1 ≤ c.2.1 ∧ c.2.1 ≤ 12 ∧
+    monthStart (12 * c.1 + c.2.1 - 1) ≤ z * 86400000000 ∧
+    z * 86400000000 + 86400000000 ≤ monthStart (12 * c.1 + c.2.1)
+
+theorem monthly_apply (t : Int) :
+    Gen.monthly.apply t =
+      let c := civilOfDays (t / 86400000000)
+      daysOfCivil (if c.2.1 = 12 then c.1 + 1 else c.1) (if c.2.1 = 12 then 1 else c.2.1 + 1) 1 * 86400000000 := by
+  simp [FreqKernel.apply, Gen.monthly, replace, replaceDay, tdUs, fieldsOf]
+
+theorem yearly_apply (t : Int) :
+    Gen.yearly.apply t = daysOfCivil ((civilOfDays (t / 86400000000)).1 + 1) 1 1 * 86400000000 := by
+  simp [FreqKernel.apply, Gen.yearly, replace, replaceDay, tdUs, fieldsOf]
+
+theorem monthly_next (hcal : CalendarMonthFact) (c0 t : Int) : IsNext (Form.monthly.B c0) t (Gen.monthly.apply t) := by
+  have hz := hcal (t / 86400000000)
+  simp only at hz
+  rw [monthly_apply]
+  simp only
+  generalize civilOfDays (t / 86400000000) = cv at *
+  obtain ⟨y, m, d⟩ := cv
+  simp only at hz ⊢
+  obtain ⟨hm1, hm12, hlo, hhi⟩ := hz
+  have hres : daysOfCivil (if m = 12 then y + 1 else y) (if m = 12 then 1 else m + 1) 1 * 86400000000
+      = monthStart (12 * y + m) := by
+    unfold monthStart
+    have e1 : (12 * y + m) / 12 = if m = 12 then y + 1 else y := by split <;> omega
+    have e2 : (12 * y + m) % 12 + 1 = if m = 12 then 1 else m + 1 := by split <;> omega
+    rw [e1, e2]
+  rw [hres]
+  refine ⟨⟨_, rfl⟩, by omega, ?_⟩
+  intro b ⟨j, hj⟩ hlt
+  subst hj
+  have : 12 * y + m - 1 < j := monthStart_lt_imp _ _ (by omega)
+  exact monthStart_mono _ _ (by omega)
+
+theorem yearly_next (hcal : CalendarMonthFact) (c0 t : Int) : IsNext (Form.yearly.B c0) t (Gen.yearly.apply t) := by
+  have hz := hcal (t / 86400000000)
+  simp only at hz
+  rw [yearly_apply]
+  generalize civilOfDays (t / 86400000000) = cv at *
+  obtain ⟨y, m, d⟩ := cv
+  simp only at hz ⊢
+  obtain ⟨hm1, hm12, hlo, hhi⟩ := hz
+  have hres : daysOfCivil (y + 1) 1 1 * 86400000000 = monthStart (12 * (y + 1)) := by
+    unfold monthStart
+    have e1 : (12 * (y + 1)) / 12 = y + 1 := by omega
+    have e2 : (12 * (y + 1)) % 12 + 1 = 1 := by omega
+    rw [e1, e2]
+  rw [hres]
+  have hup := monthStart_mono (12 * y + m) (12 * (y + 1)) (by omega)
+  refine ⟨⟨_, rfl⟩, by omega, ?_⟩
+  intro b ⟨y2, hj⟩ hlt
+  subst hj
+  have : 12 * y + m - 1 < 12 * y2 := monthStart_lt_imp _ _ (by omega)
+  exact monthStart_mono _ _ (by omega)
+
+theorem stepOK_calendar (hcal : CalendarMonthFact) : StepOK Form.monthly ∧ StepOK Form.yearly := by
+  refine ⟨⟨?_, ?_⟩, ⟨?_, ?_⟩⟩
+  · intro c off; simpa [Form.cfg, firstLimit, Step.apply, Form.frame] using monthly_next hcal (c + off) (c + off)
+  · intro c l _; simpa [Form.cfg, Step.apply] using monthly_next hcal c l
+  · intro c off; simpa [Form.cfg, firstLimit, Step.apply, Form.frame] using yearly_next hcal (c + off) (c + off)
+  · intro c l _; simpa [Form.cfg, Step.apply] using yearly_next hcal c l
 
 end Rotation
